@@ -45,6 +45,7 @@ func cmdCheck(args []string) int {
 	evdir := fs.String("evidence", "/verif/evidence", "evidence directory")
 	noev := fs.Bool("noevidence", false, "do not write evidence")
 	timeout := fs.Int("timeout", 0, "per-obligation timeout seconds")
+	obsel := fs.String("ob", "", "only obligations whose name contains this string")
 	fs.Parse(args)
 	start := time.Now()
 	eng, err := newEngine(*repo, allPkgs)
@@ -122,6 +123,7 @@ func cmdCheck(args []string) int {
 	if *timeout > 0 {
 		opt.timeout = time.Duration(*timeout) * time.Second
 	}
+	opt.only = *obsel
 	results := solveAll(eng, fvs, opt)
 	failed := report(eng, *prop, *tier, fvs, results, under, start, loadMs, *verbose, *evdir, *noev, dir)
 	if failed > 0 {
